@@ -119,9 +119,8 @@ pub fn gen_c02(r: &mut Rng, extras: bool) -> Vec<GRule> {
     g
 }
 
-pub const WITNESSES: [(&str, &str, &str); 5] = [
+pub const WITNESSES: [(&str, &str, &str); 4] = [
     ("C02-ws-nonatomic", "", "r0 = { \"x\" ~ \"y\" }\nWHITESPACE = !{ \" \" }\n"),
-    ("C02-shadow-builtin", "", "r0 = { ASCII_DIGIT }\nASCII_DIGIT = { \"x\" }\n"),
     ("C02-node-tag", "x", "r0 = { r1 ~ #t = r2? }\nr1 = { \"x\" }\nr2 = { \"y\" }\n"),
     ("C02-node-tag", "x", "r0 = { #t = r1* }\nr1 = { \"x\" }\n"),
     ("C02-skip-in-push", "", "r0 = @{ PUSH((!\"y\" ~ ANY)*) ~ \"y\" ~ POP }\n"),
@@ -130,7 +129,10 @@ pub const WITNESSES: [(&str, &str, &str); 5] = [
 /// hand-written grammars that are always part of the behavioural batch: one per mechanism in which the two back-ends are
 /// built differently (atomic sequences / repetitions and the implicit skip, the skip with overlapping WHITESPACE / COMMENT,
 /// the modifier wrappers entered from an atomic caller, flattened sequences around stack operations)
-pub const PROBES: [&str; 14] = [
+pub const PROBES: [&str; 16] = [
+    // user rules named like hard-coded built-ins shadow them in both back-ends (class C02-shadow-builtin, fixed by /repo 76a77f3)
+    "r0 = { ASCII_DIGIT }\nASCII_DIGIT = { \"x\" }\n",
+    "r0 = { NEWLINE ~ ASCII_ALPHA+ ~ ASCII }\nNEWLINE = { \"5\" }\nASCII_ALPHA = @{ \"y\" }\nASCII = _{ \" \" | ASCII_DIGIT }\n",
     // WHITESPACE / COMMENT of the `$` `@` modifiers that call non-silent rules (their pairs are kept under `$`, dropped under `@`)
     "r0 = { \"x\" ~ \"x\" }\nCOMMENT = ${ \"5\" ~ body ~ \"5\" }\nbody = { \"y\"* }\n",
     "r0 = { \"x\" ~ \"x\" }\nWHITESPACE = ${ sp+ }\nsp = { \" \" }\nCOMMENT = @{ \"5\" ~ body }\nbody = { \"y\" }\n",
